@@ -14,6 +14,7 @@ import (
 	_ "verif/checks/c08"
 	_ "verif/checks/c10"
 	_ "verif/checks/c11"
+	_ "verif/checks/c12"
 	_ "verif/checks/c13"
 	_ "verif/checks/c19"
 	_ "verif/checks/c20"
